@@ -212,12 +212,39 @@ class VC:
                         self.obligations[k].result = r
             finally:
                 _DISCHARGE_SELF = None
+
             return self.obligations
         for ob in self.obligations:
             if ob.result is not None:
                 continue
             ob.result = self._discharge_ob(ob)
         return self.obligations
+
+    def thorough_recheck(self, limit=600):
+        """thorough tier: every (up to `limit`, evenly sampled) obligation proved by z3 / the normaliser is re-checked by cvc5 and its
+        hypotheses are probed for satisfiability. Returns a summary; disagreements are returned as obligation ids."""
+        cand = [k for k, ob in enumerate(self.obligations) if ob.kind != "cover" and ob.result is not None and ob.result.status == solve.PROVED
+                and ob.result.backend != "cvc5"]
+        step = max(1, len(cand) // limit)
+        todo = cand[::step][:limit]
+        res = []
+        if todo:
+            import multiprocessing as mp
+            global _DISCHARGE_SELF
+            _DISCHARGE_SELF = self
+            try:
+                with mp.get_context("fork").Pool(min(int(os.environ.get("PYVC_JOBS", "12")), len(todo))) as pool:
+                    res = list(pool.imap_unordered(_thorough_one, todo, chunksize=1))
+            finally:
+                _DISCHARGE_SELF = None
+        summary = {"candidates": len(cand), "rechecked": len(res),
+                   "cvc5_agrees": sum(1 for r in res if r["cvc5"] == solve.PROVED), "cvc5_unknown": sum(1 for r in res if r["cvc5"] == solve.UNKNOWN),
+                   "cvc5_disagrees": [self.obligations[r["k"]].id for r in res if r["cvc5"] == solve.REFUTED],
+                   "hypotheses_satisfiable": sum(1 for r in res if r["hyps"] == solve.PROVED),
+                   "hypotheses_undecided": sum(1 for r in res if r["hyps"] == solve.UNKNOWN),
+                   "hypotheses_contradictory": [self.obligations[r["k"]].id for r in res if r["hyps"] == solve.REFUTED]}
+        self.extra["thorough_recheck"] = summary
+        return summary
 
     def _discharge_ob(self, ob):
         if True:
@@ -256,6 +283,23 @@ class VC:
 
 
 _DISCHARGE_SELF = None
+
+
+def _thorough_one(k):
+    """second opinion + vacuity probe for one proved obligation (thorough tier)"""
+    vc = _DISCHARGE_SELF
+    ob = vc.obligations[k]
+    out = {"k": k}
+    r = solve.cvc5_check(ob.hyps, ob.goal, 20)
+    out["cvc5"] = r.status
+    v = solve.z3_sat(ob.hyps, z3_true(), 5000)
+    out["hyps"] = v.status          # proved = satisfiable, refuted = contradictory hypotheses (vacuous proof)
+    return out
+
+
+def z3_true():
+    import z3
+    return z3.BoolVal(True)
 
 
 def _discharge_one(k):
